@@ -231,7 +231,7 @@ SortCoupons(S) == SetToSortSeq(S, CouponLess)
 \* re-inserted into a fresh table; array: cells, cur_min, counts and exceptions are
 \* copied; an out-of-order image loses its (meaningless) HIP accumulator.
 RoundTrip(st) ==
-  CASE st.mode = "list" -> [st EXCEPT !.listCap = ListCap]
+  CASE st.mode = "list" -> st
     [] st.mode = "set"  -> [st EXCEPT !.tab = InsertAll(EmptyTab(st.setLg), st.setLg,
                                                         SortCoupons(RangeOf(st.tab) \ {NoC}))]
     [] st.mode = "arr"  -> [st EXCEPT !.hipPos = IF st.ooo THEN FALSE ELSE @]
